@@ -124,11 +124,7 @@ func (x *Exec) lookup(st *State, fr *Frame, v *ssa.Lookup) Value {
 	case *Term: // string index
 		idx := x.toInt(x.val(st, fr, v.Index).(*Term))
 		x.safety(st, "index", v, And(Le(IntLit(0), idx), Lt(idx, Len(b))), "string index in range")
-		r := At(b, idx)
-		if x.bv {
-			return Int2BV(r, 8)
-		}
-		return r
+		return x.byteAt(b, idx)
 	}
 	panic(unsupported(fmt.Sprintf("Lookup on %T", base)))
 }
@@ -180,7 +176,7 @@ func (x *Exec) rangeNext(st *State, fr *Frame, v *ssa.Next) Value {
 	st.Heap[it.Pos] = Ite(ok, Add(i, w), i)
 	var kv, rv Value = i, r
 	if x.bv {
-		kv, rv = Int2BV(i, 64), Int2BV(r, 32)
+		rv = Int2BV(r, 32)
 	}
 	return &TupleVal{Vs: []Value{ok, kv, rv}}
 }
